@@ -12,6 +12,7 @@ import SameVerif.Spec.OracleAsm
 import SameVerif.Model.Link
 import SameVerif.Spec.OracleSig
 import SameVerif.Model.Receiver
+import SameVerif.Model.Iterator
 import Driver.Util
 /-
   samemodel: the executable side of the correspondence check.
@@ -396,6 +397,117 @@ def rxRun (rate sym0 : Nat) (ticks : List (Nat × LinkSt)) : String :=
     (st', sample, sym, e.reverse ++ evs)) (({} : RState), 0, sym0, [])
   if evs.isEmpty then "-" else ",".intercalate (evs.reverse.map showEvent)
 
+-- ---------------------------------------------------------------- iterator bindings (C13)
+/-- reference event: index, timestamp, is it an Ok message -/
+structure RefEv where
+  idx : Nat
+  ts : Nat
+  isMsg : Bool
+
+/-- step function reconstructed from a one-shot trace: sample number n emits the events stamped n -/
+def traceStep (st : Nat × List RefEv) (_ : Unit) : (Nat × List RefEv) × List RefEv :=
+  let n := st.1 + 1
+  let now := st.2.takeWhile (·.ts == n)
+  let later := st.2.dropWhile (·.ts == n)
+  ((n, later), now)
+
+def parseRef (s : String) : Option (List RefEv) :=
+  if s == "-" then some []
+  else
+    let ws := s.splitOn ","
+    (List.range ws.length).mapM (fun i =>
+      let w := ws.getD i ""
+      let isMsg := w.endsWith "m"
+      let num := if isMsg then (w.dropEnd 1).toString else w
+      num.toNat?.map (fun t => (⟨i, t, isMsg⟩ : RefEv)))
+
+abbrev TRx := Rx (Nat × List RefEv) RefEv
+
+/-- one `iter_events(&mut src).next()` -/
+def callE (r : TRx) (src : List Unit) : String × TRx × List Unit :=
+  match next traceStep r src with
+  | (some e, r', src') => (s!"{e.idx}@{r'.consumed}", r', src')
+  | (none, r', src') => (s!"-@{r'.consumed}", r', src')
+
+/-- one `iter_messages(&mut src).next()`: events are consumed until an Ok message appears -/
+partial def callM (r : TRx) (src : List Unit) : String × TRx × List Unit :=
+  match next traceStep r src with
+  | (some e, r', src') => if e.isMsg then (s!"{e.idx}@{r'.consumed}", r', src') else callM r' src'
+  | (none, r', src') => (s!"-@{r'.consumed}", r', src')
+
+/-- a binding drained to the end: every event with its own timestamp, then the end marker -/
+partial def callDrain (r : TRx) (src : List Unit) (acc : List String) : List String × TRx :=
+  match next traceStep r src with
+  | (some e, r', src') => callDrain r' src' (s!"{e.idx}@{e.ts}" :: acc)
+  | (none, r', _) => ((s!"-@{r'.consumed}" :: acc).reverse, r')
+
+partial def callPattern (pat : Array Char) (i : Nat) (r : TRx) (src : List Unit) (acc : List String) : List String × TRx :=
+  let c := pat[i % pat.size]!
+  let (out, r', src') := if c == 'm' then callM r src else callE r src
+  if out.startsWith "-" then ((out :: acc).reverse, r') else callPattern pat (i + 1) r' src' (out :: acc)
+
+def iterRun (ref : List RefEv) (sched : List (Nat × String)) : String :=
+  let r0 : TRx := { st := (0, ref) }
+  let (outs, _) := sched.foldl (fun (acc : List String × TRx) (k, pat) =>
+    let src := List.replicate k ()
+    let (o, r') := if pat == "E" then callDrain acc.2 src [] else callPattern pat.toList.toArray 0 acc.2 src []
+    (acc.1 ++ o, r')) ([], r0)
+  ",".intercalate outs
+
+def parseSched (s : String) : Option (List (Nat × String)) :=
+  (s.splitOn "/").mapM (fun w => match w.splitOn ":" with
+    | [k, pat] => k.toNat?.map (fun k => (k, pat))
+    | _ => none)
+
+/-- C13 oracle on the recorded calls, from the statement only: returned events are the reference
+    events in order, nothing is skipped except non-message events by message calls, the counter
+    after a call equals the returned event's timestamp, never decreases, and equals the number
+    of samples supplied so far when a binding ends -/
+def oracleC13 (n : Nat) (ref : List RefEv) (sched : List (Nat × String)) (calls : List String) : Option String := Id.run do
+  let mut cursor := 0
+  let mut lastCounter := 0
+  let mut supplied := 0
+  let mut segs := sched
+  let mut inSeg := false
+  let mut skippedMsg := false
+  for c in calls do
+    if !inSeg then
+      match segs with
+      | (k, _) :: rest => supplied := supplied + k; segs := rest; inSeg := true
+      | [] => return some "more calls than bindings"
+    match c.splitOn "@" with
+    | [a, b] =>
+      match b.toNat? with
+      | none => return some "unparsable call"
+      | some counter =>
+        if counter < lastCounter then return some "input_sample_counter decreased"
+        lastCounter := counter
+        if a == "-" then
+          if counter != supplied then return some s!"a binding ended with {counter} samples consumed, {supplied} supplied"
+          -- whatever was generated up to here and not returned was dropped by message calls
+          for e in ref do
+            if e.idx ≥ cursor ∧ e.ts ≤ counter then
+              if e.isMsg then skippedMsg := true
+              cursor := e.idx + 1
+          inSeg := false
+        else
+          match a.toNat? with
+          | none => return some s!"a call returned an event that is not the next one of the one-shot trace: {a}"
+          | some i =>
+            if i < cursor then return some "an event was returned twice or out of order"
+            for e in ref do
+              if e.idx ≥ cursor ∧ e.idx < i ∧ e.isMsg then skippedMsg := true
+            cursor := i + 1
+            match ref[i]? with
+            | some e => if e.ts > counter then return some "an event was returned before its sample was consumed (read ahead the other way)"
+                        else if e.ts != counter ∧ !(c.startsWith s!"{i}@{e.ts}") then return some "input_sample_counter after the call differs from the returned event's timestamp: samples were read ahead"
+            | none => return some "event index out of range"
+    | _ => return some "unparsable call"
+  if skippedMsg then return some "a message was lost across bindings"
+  if supplied != n then return some "schedule does not cover the stream"
+  if cursor != ref.length then return some s!"{ref.length - cursor} events of the one-shot trace were never returned"
+  return none
+
 def vote3hash (lo hi : Nat) : UInt64 := Id.run do
   let mut h := fnvInit
   for i in [lo:hi] do
@@ -662,6 +774,19 @@ def handleSpec (name : String) (ins ans : List String) : String :=
       match parseScOuts ans with
       | some msgs => optVerdict (Spec.oracleSigC05One msgs)
       | none => "FAIL unparsable"
+    | "c09" =>
+      match arg.toNat?, parseSigEvs ans with
+      | some rate, some evs => optVerdict (Spec.oracleSigC09 rate evs)
+      | _, _ => "FAIL unparsable"
+    | "c14" =>
+      match arg.splitOn ",", ans with
+      | [h, full], [b, "|", f, "|", e] =>
+        let parseMsgs (w : String) : Option (List Spec.OutMsg) :=
+          if w == "-" then some [] else (w.splitOn ",").mapM (fun m => (parseScOut s!"0:{m}").map (·.msg))
+        match unhex h, parseMsgs b, parseMsgs f with
+        | some h, some b, some f => optVerdict (Spec.oracleSigC14 h (full == "1") b f (e == "none"))
+        | _, _, _ => "FAIL unparsable"
+      | _, _ => "FAIL unparsable"
     | "nosom" =>
       match parseSigEvs ans with
       | some evs => verdict (!evs.any (fun e => match e with | .msg _ (.som ..) => true | _ => false))
@@ -681,6 +806,22 @@ def handleSpec (name : String) (ins ans : List String) : String :=
         | _, _ => "FAIL unparsable"
       | _, _ => "FAIL unparsable"
     | _ => "bad-op"
+  | "spec.c18.state", [_label] =>
+    verdict (ans == ["-"]) s!"state after reset() differs from a freshly built receiver in a live field: {" ".intercalate ans}"
+  | "spec.c18.events", [_label] =>
+    let a := ans.takeWhile (· != "||")
+    let b := (ans.dropWhile (· != "||")).drop 1
+    if a == b then "ok"
+    else
+      -- first differing event
+      let ea := (" ".intercalate a).splitOn ","
+      let eb := (" ".intercalate b).splitOn ","
+      let k := ((ea.zip eb).takeWhile (fun p => p.1 == p.2)).length
+      s!"FAIL events after reset() differ from a fresh receiver's at event {k}: {ea.getD k "(none)"} vs {eb.getD k "(none)"}"
+  | "spec.c13.calls", [n, ref, sched] =>
+    match n.toNat?, parseRef ref, parseSched sched, ans with
+    | some n, some ref, some sched, [calls] => optVerdict (oracleC13 n ref sched (calls.splitOn ","))
+    | _, _, _, _ => "FAIL unparsable"
   | "spec.c07.stream", [pb, ib, bs] =>
     match pb.toNat?, ib.toNat?, unhex bs with
     | some pb, some ib, some bs =>
@@ -735,6 +876,10 @@ def handleOp (args : List String) : String :=
   | ["hdrnbhd", seed, pos] =>
     match unhex seed, pos.toNat? with
     | some seed, some pos => s!"{(hdrnbhd seed pos).toNat}"
+    | _, _ => "bad-op"
+  | ["iter.run", _n, ref, sched] =>
+    match parseRef ref, parseSched sched with
+    | some ref, some sched => iterRun ref sched
     | _, _ => "bad-op"
   | ["link.run", me, pb, ib, obs, bytes] =>
     match me.toNat?, pb.toNat?, ib.toNat?, unhex bytes with
